@@ -123,6 +123,17 @@ func PlanFromSeed(seed int64, k int) Plan {
 		p.FirstPeer = 0
 		p.Extend, p.ReorgDepth = 2, 0
 	}
+	if k == 1 {
+		// A fixed scenario: a peer that lies ONLY in its filter-header
+		// checkpoints (its cfheaders and filters are correct), next to an
+		// honest peer, on a chain long enough for the checkpointed path.
+		p.ChainLen = 2300
+		p.Checkpoints = nil
+		p.Preset = chaingen.PresetNoRetarget
+		p.Peers = []PeerPlan{{Kind: BHonest}, {Kind: BLiar, Lies: []netsim.Lie{{Kind: netsim.LieCheckpt, Height: 1000}}}}
+		p.FirstPeer = -1
+		p.Extend, p.ReorgDepth = 1, 0
+	}
 	return p
 }
 
